@@ -259,7 +259,7 @@ for _pid in ("C01", "C04", "C07", "C08", "C09", "C11"):
     PROPS[_pid]["rule"] += " cfg2 (schedules): two overlapping SetConfigThreadSafe calls with different settings (+ optionally a reader); once both returned, what Config() reports must be what is enforced (override flags, timeout, both limits), observed through IsOpen and a lone probe call."
     if TB_SCHED[0] not in PROPS[_pid]["trusted_base"]:
         PROPS[_pid]["trusted_base"] = PROPS[_pid]["trusted_base"] + TB_SCHED
-PROPS["C04"]["components"].append(CircuitSeq("C04", ["conc", "run", "fb", "fan:reject"], 1200, 50000))
+PROPS["C04"]["components"].append(CircuitSeq("C04", ["conc", "run", "fb", "fan:reject", "dflt"], 1200, 50000))   # dflt: what an EMPTY config enforces when that is not the documented 10 / 10
 PROPS["C04"]["rule"] += " circuit (sequential histories incl. reconfigurations landing mid-call with several settings at once): a limit of 0 in force refuses the lone caller, a refused function is not invoked, the gauges read zero after every call."
 PROPS["C04"]["trusted_base"] = PROPS["C04"]["trusted_base"] + [t for t in TB_CIRCUIT if t not in PROPS["C04"]["trusted_base"]]
 PROPS["C07"]["components"].append(CircuitSeq("C07", ["same"], 150, 4000, suite="gowrap"))
